@@ -2,7 +2,7 @@
     and the model computes on them what the theorems say (evaluated by the kernel, vm_compute). *)
 From IsoTp Require Import Base.Prelude Model.Micro Spec.ConfigSpec Spec.Segment Spec.Stream
   Proofs.TxP Proofs.CoopP Proofs.FcPosP Proofs.RxP Proofs.OnceP Proofs.PacingP Proofs.JustifiedP Proofs.LimP Proofs.LazyRunP
-  Model.Joint Spec.AddrSpec Proofs.AddressP Proofs.WireP Proofs.JointP Proofs.JointProcP Proofs.LimWinP Proofs.TokenP.
+  Model.Joint Spec.AddrSpec Proofs.AddressP Proofs.WireP Proofs.JointP Proofs.JointProcP Proofs.LimWinP Proofs.TokenP Proofs.FsmProps.
 
 Definition ex_params (bs : Z) : params :=
   {| p_stmin := 0; p_blocksize := bs; p_override_stmin_ns := None; p_tbs_ns := 1000000000; p_tcr_ns := 1000000000;
@@ -116,3 +116,18 @@ Example ex_no_deadline_error :
   stmin_valid (p_stmin (c_p ex_ca)) = true /\ stmin_valid (p_stmin (c_p ex_cb)) = true /\
   jto (snd (crun ex_ca ex_cb (init_net ex_ca ex_cb 0 0) ex_calls)) = false.
 Proof. vm_compute. repeat split; reflexivity. Qed.
+
+(** The premises of C04_wait_count_per_message, C04_cts_obeyed and C07_on_deadline are met by concrete states: a freshly built layer
+    is reachable and neither waiting nor streaming; a sender that has put out its First Frame is reachable, waits for its Flow Control
+    and has its deadline ahead; its N_Bs timer is a running timer with a positive timeout. *)
+Example ex_wait_count_premises :
+  reachable ex_ca (init_layer ex_ca 0) /\ tx_state (init_layer ex_ca 0) <> TxWaitFC /\ tx_state (init_layer ex_ca 0) <> TxTransmitCF.
+Proof. split; [exists 0, []; reflexivity|]. split; discriminate. Qed.
+
+Definition ex_waiting : layer :=
+  fst (mrun ex_ca (init_layer ex_ca 0) [MSend (list_gen ex_payload) 30 None; MTx]).
+
+Example ex_cts_premises :
+  tx_state ex_waiting = TxWaitFC /\ timer_timed_out (now ex_waiting) (timer_rx_fc ex_waiting) = false /\
+  (exists s, t_start (timer_rx_fc ex_waiting) = Some s) /\ 0 < t_timeout (timer_rx_fc ex_waiting).
+Proof. vm_compute. repeat split; try reflexivity. eexists; reflexivity. Qed.
